@@ -27,7 +27,7 @@ func ReadPopulation(ir io.Reader, options *neat.Options) (pop *Population, err e
 		}
 		switch parts[0] {
 		case "genomestart":
-			outBuff = bytes.NewBufferString(fmt.Sprintf("genomestart %s", parts[1]))
+			outBuff = bytes.NewBufferString(fmt.Sprintf("genomestart %s\n", parts[1]))
 			idCheck, err = strconv.Atoi(parts[1])
 			if err != nil {
 				return nil, err
